@@ -1069,35 +1069,18 @@ class EProxy(EObject):
         return self._wrapped
 
     def delete(self, recursive=True):
-        if recursive and self.resolved:
-            [obj.delete() for obj in self.eAllContents()]
-            # for obj in self.eAllContents():
-            #     obj.delete()
-
-        seek = set(self._inverse_rels)
         if self.resolved:
-            seek.update((self, ref) for ref in self.eClass.eAllReferences())
-        for owner, feature in seek:
+            # deleting through a resolved proxy deletes its target (which
+            # also finds the references held through other proxies of it)
+            return self._wrapped.delete(recursive)
+        # not resolved: only the references to the proxy can be cleaned
+        for owner, feature in set(self._inverse_rels):
             fvalue = owner.eGet(feature)
             if feature.many:
-                if owner is self:
-                    fvalue.clear()
-                    continue
                 if self in fvalue:
                     fvalue.remove(self)
-                    continue
-                value = next((val for val in fvalue
-                              if self._wrapped is val),
-                             None)
-                if value:
-                    fvalue.remove(value)
-            else:
-                if self is fvalue or owner is self:
-                    owner.eSet(feature, None)
-                    continue
-                value = fvalue if self._wrapped is fvalue else None
-                if value:
-                    owner.eSet(feature, None)
+            elif self is fvalue:
+                owner.eSet(feature, None)
 
     def __getattribute__(self, name):
         if name in ('_wrapped', '_proxy_path', '_proxy_resource', 'resolved',
@@ -1130,6 +1113,7 @@ class EProxy(EObject):
                 self._wrapped = decoded.eClass
             else:
                 self._wrapped = decoded
+            self._wrapped._inverse_rels.update(self._inverse_rels)
             self.resolved = True
         self._wrapped.__setattr__(name, value)
 
